@@ -2,6 +2,7 @@ package vuego
 
 import (
 	"bytes"
+	"fmt"
 	"io/fs"
 	"strings"
 
@@ -99,7 +100,15 @@ func (lp *LessProcessor) isLessStyleTag(node *html.Node) bool {
 }
 
 // compileLessTag extracts LESS content from the style tag, compiles it to CSS, and replaces the tag with a style tag.
-func (lp *LessProcessor) compileLessTag(styleNode *html.Node) error {
+func (lp *LessProcessor) compileLessTag(styleNode *html.Node) (err error) {
+	// The LESS compiler is handed whatever stands in the template: a panic on malformed
+	// input is a failure to compile that tag, not the end of the render call's goroutine
+	defer func() {
+		if r := recover(); r != nil {
+			err = &LessProcessorError{Err: fmt.Errorf("panic: %v", r), Reason: "failed to compile LESS"}
+		}
+	}()
+
 	// Extract the LESS content from the style tag's text content
 	lessContent := ""
 	for c := styleNode.FirstChild; c != nil; c = c.NextSibling {
